@@ -79,7 +79,7 @@ func runC08(e *core.Env) {
 	g.NoExt = true
 	var imgs []*gen.Graph
 	for i := 0; i < 3; i++ {
-		gr := g.Graph(gen.Opts{NoDigestTags: true, NoExternal: true})
+		gr := g.Graph(gen.Opts{NoDigestTags: true, NoExternal: true, Loops: true})
 		gr.Install(src, "proj/app", fmt.Sprintf("i%d", i))
 		imgs = append(imgs, gr)
 	}
